@@ -1189,6 +1189,7 @@ func vxCliAuto(yaml string) (int, string) {
 }
 
 type vxState struct {
+	poisoned  bool // an evaluation hung: stop using this process
 	rep       *mc.Report
 	childRuns map[string]int
 	cliRuns   int
@@ -1253,6 +1254,8 @@ func (st *vxState) runCase(c *vxCase, forceCli bool) {
 		switch {
 		case r.Hung:
 			st.violate(c, "C11 accepted config hangs on instantiate/evaluate", "no result after 30 s")
+			// the stuck goroutine may hold locks of the packages under test: this process cannot judge further cases
+			st.poisoned = true
 		case r.InitPanic != "":
 			st.violate(c, "C11 accepted config panics on instantiate", "InitializeObjects panicked: "+r.InitPanic)
 		case r.InitErr != "":
@@ -1333,7 +1336,7 @@ func TestVX_C11(t *testing.T) {
 	vxEnumerate(maxNodes, func(build func() vxCase) {
 		i := idx
 		idx++
-		if !mc.Mine(i) {
+		if !mc.Mine(i) || st.poisoned {
 			return
 		}
 		c := build()
@@ -1350,6 +1353,9 @@ func TestVX_C11(t *testing.T) {
 			rep.Sample(map[string]any{"family": c.Family, "case": c.Desc, "documented": c.Documented, "reference": vxRefValid(&c), "yaml": c.Yaml})
 		}
 	})
+	if st.poisoned {
+		rep.Cap("an accepted configuration hung on evaluate: the remaining cases of this shard were not run")
+	}
 	rep.AddDistinct(mine) // every case is a different abstract configuration (enumerated without repetition)
 	rep.Configs = mine
 	rep.Note(fmt.Sprintf("all curve digraphs (adjacency matrices incl. self-loops) on 1..%d nodes (thorough: plus all 2^20 digraphs without self-loops on 5 nodes); chains, rings, diamonds, ring-with-tail (every back edge) on 5..8 nodes; "+
